@@ -636,7 +636,7 @@ def g():
     if p:
         return f(1, 2, 3)
     if q:
-        return f(1, a=2)
+        return f(1, 2, a=3)
     return f(1, 2, z=3)
 r0 = emit(0)
 r = g()
@@ -665,6 +665,17 @@ def f(n):
 def g():
     return f(0) if v3 else f(1)
 r = g()
+`},
+	{"x_recursion2", zzNeedNone, `
+def mk():
+    def f(g):
+        emit(1)
+        return g(None) if g else 0
+    return f
+a = mk()
+b = mk()
+r0 = a(None)
+r = a(b) if v3 else a(lambda g: 5)
 `},
 	{"x_call", zzNeedNone, `
 def f(**kw):
